@@ -41,6 +41,11 @@ func c10World(tp *Tape, env *Env) (*Plan, *Violation) {
 	w.Host = HostSpec{Storer: []string{"rec", "mem"}[tp.Int(0, 1, "storer")], Probes: true, Seed: "s1", Handlers: hostHandlers, Scheds: drawScheds(tp, true), Reentrant: tp.Chance(15, "reentrant")}
 	m := newModel(prog, cfg.Handlers, w.Host.Scheds)
 	dc := &DriveCfg{MaxOps: 40, Vars: g.vars, WritePct: tp.Int(0, 15, "writepct")}
+	if tp.Chance(25, "reregworld") {
+		for _, hs := range cfg.Handlers {
+			dc.Reregister = append(dc.Reregister, hs.Name)
+		}
+	}
 	ops, choices := driveTape(tp, m, dc, env.St)
 	if m.discard != "" || m.faulted {
 		env.St.inc("discarded", 1)
@@ -215,6 +220,9 @@ func c10Run(plan *Plan, w World, ops []Op, st *Stats, primary bool) (*Violation,
 		defer func() { prevStore = store }()
 		if op.K != "next" || got == nil {
 			return nil
+		}
+		if h.staleHandler != "" {
+			return &Violation{Clause: "C10.handler-once", OpIndex: i, Observed: h.staleHandler, Note: "a command statement invoked a handler that the host had replaced: an executed command statement invokes the handler registered under its name"}
 		}
 		if d := time.Since(t0); d != 0 {
 			return &Violation{Clause: "C10.time-moved", OpIndex: i, Observed: d.String(), Note: "simulated time advanced during Next: the call waited on something"}
